@@ -238,7 +238,7 @@ func init() {
 	registerRule(&RuleDef{ID: "A2-INPLACE", Min: 1, Doc: "a cached row object is replaced, never rewritten in place", Run: ruleA2INPLACE})
 	add("C14", "A2-INPLACE")
 	add("C13", "A2-INPLACE")
-	registerRule(&RuleDef{ID: "R-ITER", Min: 2, Doc: "the update merged for an operation is produced by that operation's own iteration", Run: ruleRITER})
+	registerRule(&RuleDef{ID: "R-ITER", Min: 1, Doc: "the update merged for an operation is produced by that operation's own iteration", Run: ruleRITER})
 	add("C03", "R-ITER")
 	add("C02", "R-ITER")
 	add("C11", "R-ITER")
@@ -251,7 +251,7 @@ func init() {
 	add("C13", "G-GLOBAL")
 	add("C17", "T-SCAN")
 	add("C06", "T-SCAN")
-	registerRule(&RuleDef{ID: "MAX-ONE", Min: 2, Doc: "the update engine splits single-valued sets off at max == 1, like the mapper and the generator", Run: ruleMAXONE})
+	registerRule(&RuleDef{ID: "MAX-ONE", Min: 1, Doc: "the update engine splits single-valued sets off at max == 1, like the mapper and the generator", Run: ruleMAXONE})
 	add("C01", "MAX-ONE")
 	add("C07", "MAX-ONE")
 	add("C11", "MAX-ONE")
